@@ -62,7 +62,7 @@ def build_format(f, with_base=False):
 _COMMANDS = {}
 
 
-def build_command(f, fobj, cfg_lenient):
+def build_command(f, fobj, cfg_lenient, keep=True):
     """the same format declared through the configuration route: a chain of CommandConfigs (one per command name, or an
     anonymous one), arguments and options added with Config.add_argument / add_option; returns the leaf Command.
     One Command per format object and configuration mode, kept for the whole run (a history on one object)."""
@@ -100,11 +100,12 @@ def build_command(f, fobj, cfg_lenient):
     cmd = Command(cfgs[0])
     for c in f["cnames"][1:]:
         cmd = cmd.get_sub_command(txt(c["n"]))
-    _COMMANDS[key] = (fobj, cmd)   # keeps fobj alive so that its id is not reused
+    if keep:
+        _COMMANDS[key] = (fobj, cmd)   # keeps fobj alive so that its id is not reused
     return cmd
 
 
-def command_route(f, fobj, toks, form):
+def command_route(f, fobj, toks, form, keep=True):
     """Command.parse(raw, lenient) for lenient = True, False, None on ONE raw-args object, on a command whose configuration
     enables lenient parsing or not (alternating by the line)"""
     import zlib
@@ -112,7 +113,7 @@ def command_route(f, fobj, toks, form):
     cfg_lenient = zlib.crc32(repr(toks).encode()) % 2 == 1
     out = {"cfgLenient": cfg_lenient, "built": True}
     try:
-        cmd = build_command(f, fobj, cfg_lenient)
+        cmd = build_command(f, fobj, cfg_lenient, keep)
     except Exception as e:  # noqa
         bad = {"err": "EXC:build:" + type(e).__name__, "result": dict(NORES)}
         out.update({"built": False, "yes": bad, "no": bad, "dflt": bad})
@@ -267,7 +268,7 @@ def pristine_request(req):
         raise T.MachineryError("pristine reference server failed: %r" % (e,))
 
 
-def event(f, fobj, tokens, lenient, parser=None, mut=None, recipe=None, form="argv"):
+def event(f, fobj, tokens, lenient, parser=None, mut=None, recipe=None, form="argv", keep=True):
     """one request for ArgsParserTrace: observed on `parser` (fresh if None), on a fresh parser, in the other mode;
     also whether argv list / raw tokens / format listings survived the call untouched"""
     from clikit.args import ArgvArgs, DefaultArgsParser
@@ -291,7 +292,7 @@ def event(f, fobj, tokens, lenient, parser=None, mut=None, recipe=None, form="ar
     untouched = argv == argv0 and list(raw.tokens) == tok0 and listing(fobj) == before
     ferr, fres, _ = parse_once(DefaultArgsParser(), fobj, f, toks, lenient)
     oerr, ores, _ = parse_once(DefaultArgsParser(), fobj, f, toks, not lenient)
-    return {"pristine": pristine(f, toks, lenient, form), "msg": msg, "cmd": command_route(f, fobj, toks, form), "f": f, "line": [list(t) for t in toks], "lenient": lenient, "obs": {"err": err, "result": res},
+    return {"pristine": pristine(f, toks, lenient, form), "msg": msg, "cmd": command_route(f, fobj, toks, form, keep), "f": f, "line": [list(t) for t in toks], "lenient": lenient, "obs": {"err": err, "result": res},
             "fresh": {"err": ferr, "result": fres}, "other": {"err": oerr, "result": ores}, "mut": mut or {"kind": "", "j": 0},
             "untouched": untouched, "hasRecipe": recipe is not None, "recipe": recipe or [],
             "hasExtra": extra is not None, "extra": extra or dict(NOEXTRA)}
